@@ -26,7 +26,7 @@ func ntpOf(t time.Time) uint64 {
 }
 
 func ntpToTime(v uint64) time.Time {
-	sec := int64(v >> 32)                              //nolint:gosec
+	sec := int64(v >> 32)                             //nolint:gosec
 	frac := int64(v&0xffffffff) * 1_000_000_000 >> 32 //nolint:gosec
 
 	return time.Unix(sec-2208988800, frac).UTC()
@@ -59,14 +59,14 @@ type model struct {
 	ssrc uint32
 	rate float64
 	// inbound
-	unwrap            refUnwrapper // written here, so that a fault in the library's unwrapper does not hide in the model
-	inInit            bool
-	first, highest    int64
-	pktsIn            uint64
-	hdrBytesIn        uint64
-	bytesIn           uint64
-	firOut, pliOut    uint32 // feedback we sent about this (remote) stream
-	nackOut           uint32
+	unwrap         refUnwrapper // written here, so that a fault in the library's unwrapper does not hide in the model
+	inInit         bool
+	first, highest int64
+	pktsIn         uint64
+	hdrBytesIn     uint64
+	bytesIn        uint64
+	firOut, pliOut uint32 // feedback we sent about this (remote) stream
+	nackOut        uint32
 	// outbound
 	pktsOut, bytesOut uint64
 	hdrBytesOut       uint64
@@ -75,18 +75,19 @@ type model struct {
 	firstSentInit     bool
 	firstSent         int64
 	// remote inbound (from reception reports naming this ssrc)
-	haveRR                 bool
-	rrLost                 int64
-	rrFraction, rrJitter   float64
-	rrReceived             uint64
-	haveRRReceived         bool
-	rtt, rttTotal          time.Duration
-	rttN                   uint64
-	lastSRs                []uint64 // NTP times of the last five sender reports written for this ssrc
+	haveRR               bool
+	rrLost               int64
+	rrFraction, rrJitter float64
+	rateAmbiguous        bool
+	rrReceived           uint64
+	haveRRReceived       bool
+	rtt, rttTotal        time.Duration
+	rttN                 uint64
+	lastSRs              []uint64 // NTP times of the last five sender reports written for this ssrc
 	// remote outbound (DLRR)
-	lastRRTRs              []uint64
-	dlrrRTT, dlrrRTTTotal  time.Duration
-	dlrrN                  uint64
+	lastRRTRs             []uint64
+	dlrrRTT, dlrrRTTTotal time.Duration
+	dlrrN                 uint64
 }
 
 type clock struct {
@@ -101,7 +102,10 @@ func (c *clock) now() time.Time {
 	return c.t
 }
 
-func near(a, b time.Duration) bool { d := a - b; return d <= 2*time.Microsecond && d >= -2*time.Microsecond }
+func near(a, b time.Duration) bool {
+	d := a - b
+	return d <= 2*time.Microsecond && d >= -2*time.Microsecond
+}
 
 func TestStatsEqualRecount(t *testing.T) {
 	rec := kit.NewRecorder("C19", "stats-recount",
@@ -141,6 +145,7 @@ func TestStatsEqualRecount(t *testing.T) {
 		}
 		var locals []*local
 		var remotes []*remote
+		classes := map[string]bool{}
 		models := map[uint32]*model{}
 		for i := 0; i < nLocal; i++ {
 			ssrc := uint32(100 + i) //nolint:gosec
@@ -154,6 +159,15 @@ func TestStatsEqualRecount(t *testing.T) {
 			ssrc := uint32(200 + i) //nolint:gosec
 			rate := rapid.SampledFrom([]uint32{8000, 48000, 90000}).Draw(t, "rate")
 			r := &remote{m: &model{ssrc: ssrc, rate: float64(rate)}, src: &kit.ByteSource{}, seq: kit.U16Boundary().Draw(t, "rseq")}
+			if i < len(locals) && rapid.IntRange(0, 3).Draw(t, "bothDirections") == 0 {
+				// one SSRC bound in both directions (a loopback, or the two halves of a mock stream), possibly with another clock rate in
+				// its second StreamInfo: one set of statistics for that SSRC, counting what passes in either direction since the first bind
+				ssrc, r.m = locals[i].m.ssrc, locals[i].m
+				if float64(rate) != r.m.rate {
+					r.m.rateAmbiguous = true // which of the two rates scales the remote jitter is not stated
+				}
+				classes["ssrc-bound-in-both-directions"] = true
+			}
 			r.r = ic.BindRemoteStream(&interceptor.StreamInfo{SSRC: ssrc, ClockRate: rate}, r.src)
 			remotes = append(remotes, r)
 			models[ssrc] = r.m
@@ -178,7 +192,6 @@ func TestStatsEqualRecount(t *testing.T) {
 			return ntpOf(epoch.Add(time.Duration(stamp) * time.Millisecond))
 		}
 		nontrivial := nLocal+nRemote >= 3
-		classes := map[string]bool{}
 		// ---- steps
 		outRTP := func(t *rapid.T) {
 			advance(t)
@@ -207,7 +220,7 @@ func TestStatsEqualRecount(t *testing.T) {
 				return
 			}
 			l.m.pktsOut++
-			l.m.hdrBytesOut += uint64(hdr.MarshalSize())          //nolint:gosec
+			l.m.hdrBytesOut += uint64(hdr.MarshalSize())             //nolint:gosec
 			l.m.bytesOut += uint64(hdr.MarshalSize() + len(payload)) //nolint:gosec
 			if !l.m.firstSentInit {
 				l.m.firstSentInit, l.m.firstSent = true, int64(hdr.SequenceNumber)
@@ -551,7 +564,7 @@ func TestStatsEqualRecount(t *testing.T) {
 				}
 				if m.haveRR {
 					ri := s.RemoteInboundRTPStreamStats
-					if ri.PacketsLost != m.rrLost || math.Abs(ri.FractionLost-m.rrFraction) > 1e-12 || math.Abs(ri.Jitter-m.rrJitter) > 1e-9 {
+					if ri.PacketsLost != m.rrLost || math.Abs(ri.FractionLost-m.rrFraction) > 1e-12 || (!m.rateAmbiguous && math.Abs(ri.Jitter-m.rrJitter) > 1e-9) {
 						bad("remote inbound PacketsLost/FractionLost/Jitter", []any{ri.PacketsLost, ri.FractionLost, ri.Jitter}, []any{m.rrLost, m.rrFraction, m.rrJitter})
 					}
 					if m.haveRRReceived && ri.PacketsReceived != m.rrReceived {
